@@ -76,9 +76,7 @@ macro_rules! static_harness {
 }
 
 // ---- experiments
-static_harness!(e1_pr_se, n=2, words=1, unwind=8, Sem::PR, Enc::AuxAdm, Kind::SE, Pres::Plain, cert=false, ANSWER, qs=NOQ, fault=0, fork=false, codes=[6]);
-static_harness!(e2_sst_ds, n=2, words=4, unwind=10, Sem::SST, Enc::AuxCo, Kind::DS, Pres::Plain, cert=true, CERT, qs=SINGLES, fault=0, fork=false, codes=[6]);
-static_harness!(e3_id_se, n=2, words=1, unwind=8, Sem::ID, Enc::AuxCo, Kind::SE, Pres::Plain, cert=false, ANSWER, qs=NOQ, fault=0, fork=false, codes=[14]);
-static_harness!(e4_st_dc, n=3, words=1, unwind=8, Sem::ST, Enc::Default, Kind::DC, Pres::Plain, cert=true, CERT, qs=SINGLES, fault=0, fork=false, codes=[42]);
-static_harness!(f4_st_dc, n=3, words=1, unwind=8, Sem::ST, Enc::Default, Kind::DC, Pres::Plain, cert=true, CERT, qs=SINGLES, fault=0, fork=true, codes=[42]);
-static_harness!(f1_pr_se, n=2, words=1, unwind=8, Sem::PR, Enc::AuxAdm, Kind::SE, Pres::Plain, cert=false, ANSWER, qs=NOQ, fault=0, fork=true, codes=[6]);
+static_harness!(e1_pr_se, n=2, words=1, unwind=7, Sem::PR, Enc::AuxAdm, Kind::SE, Pres::Plain, cert=false, ANSWER, qs=NOQ, fault=0, fork=false, codes=[6]);
+static_harness!(e5_st_dc4, n=2, words=1, unwind=6, Sem::ST, Enc::Default, Kind::DC, Pres::Plain, cert=true, CERT, qs=SINGLES, fault=0, fork=false, codes=[0, 6, 7, 14]);
+static_harness!(e6_co_dc4, n=2, words=1, unwind=7, Sem::CO, Enc::AuxCo, Kind::DC, Pres::Plain, cert=true, CERT, qs=SINGLES, fault=0, fork=false, codes=[0, 6, 7, 14]);
+static_harness!(e7_st_dc_n3, n=3, words=1, unwind=6, Sem::ST, Enc::Default, Kind::DC, Pres::Plain, cert=true, CERT, qs=SINGLES, fault=0, fork=false, codes=[42]);
